@@ -67,23 +67,19 @@ impl<'a> Display<'a> {
             used += 1;
         }
 
-        let dot = if it.peek().is_some() {
-            true
-        } else {
+        // Something is cut off if a dropped integer digit is non-zero, or if
+        // there is a remainder left after the last digit that was printed.
+        let mut dot = it.clone().any(|d| d != '0');
+
+        if it.peek().is_none() {
             let remaining = self.spec.limit - used;
 
-            if remaining > 0 {
-                let mut it = emit(&mut rem, den);
-
-                for d in (&mut it).take(remaining) {
-                    fmt::Display::fmt(&d, f)?;
-                }
-
-                it.next().is_some()
-            } else {
-                false
+            for d in emit(&mut rem, den).take(remaining) {
+                fmt::Display::fmt(&d, f)?;
             }
-        };
+        }
+
+        dot |= !rem.is_zero();
 
         if dot && self.spec.show_continuation {
             f.write_char('…')?;
@@ -156,10 +152,14 @@ impl fmt::Display for Display<'_> {
         let mut takes_exp = true;
         let mut n = self.spec.limit;
 
-        for d in emit(&mut rem, &den) {
-            if n == 0 {
+        let mut it = emit(&mut rem, &den);
+
+        // NB: only pull a digit while there is budget left for it, so that the
+        // remainder always describes what follows the last printed digit.
+        while n > 0 {
+            let Some(d) = it.next() else {
                 break;
-            }
+            };
 
             if d.is_zero() && takes_exp {
                 exp -= 1;
@@ -196,6 +196,8 @@ impl fmt::Display for Display<'_> {
                 d.fmt(f)?;
             }
         }
+
+        drop(it);
 
         if !rem.is_zero() && self.spec.show_continuation {
             f.write_char('…')?;
